@@ -68,8 +68,6 @@ type worker struct {
 	fixHeld   bool
 	fallback  map[string]string // path -> generator, result of a full serial pass (lazy)
 	fbDone    bool
-	failed    bool
-	unitFiles func() (snapshot, error)
 }
 
 func newWorker(w *vrt.W, sh *shared) *worker {
@@ -168,7 +166,6 @@ func (k *worker) exec1(root string, d Directive, procs int, before snapshot) (ru
 		fmt.Sprintf("GOLINE=%d", d.Line),
 		"GOARCH="+runtime.GOARCH,
 		"GOOS="+runtime.GOOS,
-		"GOROOT="+runtime.GOROOT(),
 		"DOLLAR=$",
 	)
 	out, err := cmd.CombinedOutput()
@@ -392,6 +389,13 @@ func (k *worker) judgeFixpoint(i int, dir string, ds []Directive, p *passRes, wi
 	}
 	for _, d := range k.compare(p.After, k.base) {
 		gen := p.generatorOf(d.Path, ds[0].Generator)
+		if d.Path == "go.mod" || d.Path == "go.sum" {
+			// rewritten by the go tool under the GOFLAGS=-mod=mod this environment forces on
+			// `go list`, not generator output: reported, not judged
+			k.w.Add("module_files_touched_by_go_tool", 1)
+			k.w.Note(fmt.Sprintf("%s %s after running the directives of %s (go tool under -mod=mod; not generator output)", d.Path, d.Kind, dir))
+			continue
+		}
 		detail := ""
 		switch d.Kind {
 		case "differs":
@@ -509,13 +513,7 @@ func (k *worker) runGlobal() {
 				}, map[string]bool{}, witness)
 				w.Add("generated_files_outside_directive_dirs", int64(n))
 				// is the working tree still what was snapshotted?
-				if cur, err := snap(plan.Repo); err == nil {
-					delete(cur, ".git")
-					for p := range cur {
-						if strings.HasPrefix(p, ".git/") {
-							delete(cur, p)
-						}
-					}
+				if cur, err := snapOpt(plan.Repo, true); err == nil {
 					if d := diffSnap(cur, k.base); len(d) > 0 {
 						w.Add("working_tree_changed_since_snapshot", int64(len(d)))
 						w.Note(fmt.Sprintf("working tree %s changed after the snapshot was taken (%d paths, e.g. %s); verdicts refer to the snapshot", plan.Repo, len(d), d[0].Path))
